@@ -966,11 +966,22 @@ fn rand_req(rng: &mut Rng, pool: &[String], hpool: &[&'static str]) -> Rq {
         }
     }
     if rng.chance(2, 5) {
-        let q = match rng.below(4) {
+        // "The choice depends only on ... the path without its query": the query is filled with whatever a parser of
+        // request targets might mistake for a path, an authority or an absolute-form target (a return URL, an Origin,
+        // a second `?`, a fragment, an encoded `?`, `@`, `*`), built from paths and hosts that ARE routed differently
+        let q = match rng.below(12) {
             0 => "?".to_string(),
             1 => "?x=1".to_string(),
             2 => format!("?{}", rng.pick(pool)),
-            _ => "?a?b".to_string(),
+            3 => "?a?b".to_string(),
+            4 => format!("?to=http://{}{}", rng.pick(hpool), rng.pick(pool)),
+            5 => format!("?next=https://{}", rng.pick(hpool)),
+            6 => format!("?r=//{}{}", rng.pick(hpool), rng.pick(pool)),
+            7 => format!("?u={}://{}", rng.pick(&["ws", "ftp", "x"]), rng.pick(pool).trim_start_matches('/')),
+            8 => format!("?{}#{}", rng.pick(pool), rng.pick(pool)),
+            9 => format!("?q=%3F{}&p=%2F..%2F", rng.pick(pool)),
+            10 => format!("?@{}:{}", rng.pick(hpool), rng.pick(pool)),
+            _ => format!("?*{}*", rng.pick(pool)),
         };
         target.push_str(&q);
     }
